@@ -143,7 +143,7 @@ func (e *Engine) verifyFunc(key string) (u *Unit, err error) {
 		}
 		post := &SpecEnv{u: u, vars: pvars, st: outSt, old: pre, pkg: fn.Pkg, bound: map[string]Term{}, ctx: "ensures of " + key}
 		for i, c := range ct.Ensures {
-			t := post.evalBool(c.X)
+			t := post.evalGoal(c.X)
 			u.oblige(key, "post", clauseName(c, i), retc, t, "ensures "+c.Src, c.Tag)
 		}
 		for i, r := range res {
